@@ -145,6 +145,9 @@ func genCachePlan(tp *simrt.Tape, seed uint64, tier string) any {
 			}
 			if k == "getat" && tp.Chance(1, 4) {
 				o.Stale = 1 + tp.Draw(3) // deliberately wrong index
+				if tp.Chance(1, 3) {
+					o.Stale = -1 // the slot just beyond the end: what a slot number of a larger cache becomes after shrinking
+				}
 			}
 			ops = append(ops, o)
 		}
@@ -156,7 +159,8 @@ func genCachePlan(tp *simrt.Tape, seed uint64, tier string) any {
 func init() {
 	Register("C05", &Scenario{
 		Name: "cache",
-		Owns: []string{"C05", "race"},
+		// an index out of range inside a lookup is no less a wrong answer
+		Owns: []string{"C05", "race", "panic"},
 		New:  func() any { return &cachePlan{} },
 		Gen:  genCachePlan,
 		Cfg: func(tp *simrt.Tape, plan any) simrt.Config {
@@ -404,6 +408,15 @@ func runCache(c *Ctx, plan any) {
 						continue // index not known yet
 					}
 					idx := target.index + uint16(o.Stale)
+					if o.Stale < 0 {
+						// the capacity the cache has now (the newest applied resize)
+						idx = uint16(p.Cap)
+						for _, r := range resizes {
+							if r.done && r.applied {
+								idx = uint16(r.cap)
+							}
+						}
+					}
 					n := cache.GetAt(seq, idx, buf)
 					ret := c.Stamp()
 					c.Count("lookups", 1)
